@@ -772,6 +772,13 @@ impl Session {
 
         rx_header.proto.adjust_reliability(true, &self.peer_addr);
 
+        if matches!(self.mode, SessionMode::Group { .. }) && !rx_header.plain.is_control_msg() {
+            // Group data messages are multicast fire-and-forget and never use MRP:
+            // a reliability request or an ACK counter on one of them is not honoured
+            rx_header.proto.unset_reliable();
+            rx_header.proto.set_ack(None);
+        }
+
         Ok(pb.slice_range())
     }
 
@@ -1785,6 +1792,14 @@ impl Sessions {
             .is_ok()
         {
             packet.header.proto.adjust_reliability(true, &packet.peer);
+
+            if !packet.header.plain.is_control_msg() {
+                // Group data messages are multicast fire-and-forget and never use MRP:
+                // a reliability request or an ACK counter on one of them is not honoured
+                packet.header.proto.unset_reliable();
+                packet.header.proto.set_ack(None);
+            }
+
             Some(pb.slice_range())
         } else {
             None
